@@ -199,8 +199,39 @@ func streamScale() {
 		}
 	}
 	extra := []string{"", "H", "c", "xCx", "Cmaj7", "Am7", " Bb", "Bbm ", "C##", "Cbb", "mC", "#C", "C♯", "E♭m", "1", "A-", "Gm#"}
+	// every scale is built once and KEPT before any of them is looked at, so that state shared between scales
+	// (the way `info key list` holds all of them at once) shows up in the replies below
+	kept := map[string]*op.Scale{}
+	for _, k := range append(spellings, extra...) {
+		func() {
+			defer func() { recover() }()
+			if x, err := op.ParseKey(k); err == nil {
+				if sc, err := op.NewScale(x); err == nil {
+					kept[k] = sc
+				}
+			}
+		}()
+	}
+	s.add("keylist", guard(func() string {
+		var items []string
+		for _, sc := range op.AllScales() {
+			var notes []string
+			for _, n := range sc.Notes {
+				notes = append(notes, hx(n.String()))
+			}
+			items = append(items, fmt.Sprintf("%s %d %d %s", hx(sc.Key.String()), sc.Flat, sc.Sharp, pList(notes)))
+		}
+		return "ok " + pList(items)
+	}))
 	for _, k := range append(spellings, extra...) {
 		k := k
+		if sc, ok := kept[k]; ok {
+			var notes []string
+			for _, n := range sc.Notes {
+				notes = append(notes, hx(n.String()))
+			}
+			s.add("keptscale "+hx(k), fmt.Sprintf("ok %s %d %d %s", hx(sc.Key.String()), sc.Flat, sc.Sharp, pList(notes)))
+		}
 		s.add("parsekey "+hx(k), guard(func() string {
 			x, err := op.ParseKey(k)
 			if err != nil {
